@@ -43,6 +43,12 @@ static struct { char path[108]; kobj_t *owner; } bound_paths[MAXPATHS];
 static int nbound;
 static kobj_t *allk[4096]; static int nallk;
 uint64_t simfd_stat_cookie_reads, simfd_stat_cookie_short;
+static int cookie_ids;                      /* streams made so far in this run: a stream's number */
+struct simfd_transient simfd_transient_log[SIMFD_TRANS_MAX]; int simfd_ntransient;      /* which stream failed once, and where it stood */
+int simfd_last_cookie_id(void) { return cookie_ids; }
+int simfd_stream_transient;          /* transient read failures of cookie streams so far in this run */
+size_t simfd_last_cookie_pos;        /* where the stream stood when the last of them happened */
+
 uint64_t simfd_progress;            /* bumped on every kernel state change */
 int simfd_eagain_t[TASK_MAX];        /* per task: a read/write returned EAGAIN since the flag was cleared */
 int simfd_hard_error_t[TASK_MAX];    /* per task: last op saw EPIPE/EIO/EBADF/ENOTCONN */
@@ -81,7 +87,7 @@ void simfd_reset(long rxcap)
     conn_counter = 0; simfd_progress = 0; memset(simfd_hard_error_t, 0, sizeof(simfd_hard_error_t)); memset(simfd_eagain_t, 0, sizeof(simfd_eagain_t));
     default_rxcap = rxcap > 0 ? rxcap : 4096;
     fd_base = SIMFD_BASE; select_eintr_at = select_sleeps = 0;
-    simfd_stream_transient = 0; simfd_last_cookie_pos = 0;
+    simfd_stream_transient = 0; simfd_last_cookie_pos = 0; cookie_ids = 0; simfd_ntransient = 0;
 }
 
 static int fd_alloc(int task, kobj_t *k, int origin)
@@ -620,10 +626,8 @@ int sim_poll(struct pollfd *fds, nfds_t nfds, int timeout_ms)
 }
 
 /* ------------------------------------------------------------------ cookie streams */
-typedef struct { unsigned char *data; size_t len, pos; int seekable, failed; } cstream_t;
+typedef struct { unsigned char *data; size_t len, pos; int seekable, failed, id; } cstream_t;
 static int open_streams;
-int simfd_stream_transient;          /* transient read failures of cookie streams so far in this run */
-size_t simfd_last_cookie_pos;        /* where the stream stood when the last of them happened */
 
 static ssize_t ck_read(void *c, char *buf, size_t n)
 {
@@ -634,7 +638,9 @@ static ssize_t ck_read(void *c, char *buf, size_t n)
     simfd_stat_cookie_reads++;
     if (s->failed) { fault_fired(FC_READ, FO_EIO); tr_printf("stream read -> EIO (unreadable)"); simfd_hard_error = 1; errno = EIO; return -1; }
     if (out == FO_EIO) { fault_fired(FC_READ, FO_EIO); tr_printf("stream read -> EIO"); s->failed = 1; simfd_hard_error = 1; errno = EIO; return -1; }
-    if (out == FO_ETRANSIENT) { fault_fired(FC_READ, FO_ETRANSIENT); tr_printf("stream read -> EINTR (once)"); simfd_stream_transient++; simfd_last_cookie_pos = s->pos; errno = EINTR; return -1; }      /* nothing delivered, nothing broken: the next read carries on */
+    if (out == FO_ETRANSIENT) { fault_fired(FC_READ, FO_ETRANSIENT); tr_printf("stream read -> EINTR (once)"); simfd_stream_transient++; simfd_last_cookie_pos = s->pos;
+        if (simfd_ntransient < SIMFD_TRANS_MAX) { simfd_transient_log[simfd_ntransient].stream = s->id; simfd_transient_log[simfd_ntransient].pos = s->pos; simfd_ntransient++; }
+        errno = EINTR; return -1; }      /* nothing delivered, nothing broken: the next read carries on */
     if (out == FO_SHORT && take > 1) {
         size_t lim = (size_t)F_PARAM(f);
         if (lim < 1) lim = 1;
@@ -671,7 +677,7 @@ FILE *simfd_cookie_stream(const void *data, size_t len, int seekable, size_t sta
     FILE *fp;
     s->data = malloc(len + 1);
     if (len) memcpy(s->data, data, len);
-    s->len = len; s->pos = startpos > len ? len : startpos; s->seekable = seekable;
+    s->len = len; s->pos = startpos > len ? len : startpos; s->seekable = seekable; s->id = ++cookie_ids;
     fp = fopencookie(s, "r", io);
     if (fp) open_streams++;
     return fp;
@@ -682,7 +688,7 @@ FILE *simfd_cookie_stream_unreadable(void)
     cstream_t *s = calloc(1, sizeof(*s));
     cookie_io_functions_t io = { ck_read, NULL, ck_seek, ck_close };
     FILE *fp;
-    s->data = malloc(1); s->failed = 1;
+    s->data = malloc(1); s->failed = 1; s->id = ++cookie_ids;
     fp = fopencookie(s, "r", io);
     if (fp) open_streams++;
     return fp;
